@@ -298,9 +298,13 @@ fn jobs(tier: Tier) -> Vec<(&'static str, u64, u64)> {
 
 /// long tokens of the scalar grammar (shared with C03) as comparison literals, long identifiers,
 /// long paths, long and/or chains
+/// set from the tier at the start of run() / child()
+static THOROUGH: std::sync::atomic::AtomicBool = std::sync::atomic::AtomicBool::new(false);
+
 fn long_filters() -> &'static Vec<Vec<u8>> {
     static L: std::sync::OnceLock<Vec<Vec<u8>>> = std::sync::OnceLock::new();
     L.get_or_init(|| {
+        let thorough = THOROUGH.load(std::sync::atomic::Ordering::Relaxed);
         let mut out: Vec<Vec<u8>> = vec![];
         for t in super::c03::long_tokens() {
             if t.len() > 1100 {
@@ -315,6 +319,16 @@ fn long_filters() -> &'static Vec<Vec<u8>> {
         }
         for (text, city, _) in crate::model::time_ref::transition_texts() {
             out.push(format!("ts >= {text} {city}").into_bytes());
+        }
+        // flat filters of 20 000 / 100 000 terms
+        for n in if thorough { vec![20_000usize, 100_000] } else { vec![20_000usize] } {
+            out.push(format!("a{}", " and a".repeat(n)).into_bytes());
+            out.push(format!("a{}", " or b".repeat(n)).into_bytes());
+            out.push(format!("a{}", " or (b)".repeat(n / 2)).into_bytes());
+            out.push(format!("a{} == 1", "->b".repeat(n)).into_bytes());
+            out.push(format!("{}a", "not ".repeat(n)).into_bytes());
+            out.push(format!("a == \"{}\"", "x\\n".repeat(n)).into_bytes());
+            out.push(format!("a == {}", "9".repeat(n)).into_bytes());
         }
         for n in (1..=72usize).chain([127, 128, 129, 255, 256, 257, 1000]) {
             let name = "a".repeat(n);
@@ -413,7 +427,8 @@ fn run_input(job: &str, ord: u64, b: &[u8], local: &mut Local) {
     }
 }
 
-pub fn child(_tier: Tier, job: String, start: u64, end: u64, ctx: &mut ChildCtx, local: &mut Local) {
+pub fn child(tier: Tier, job: String, start: u64, end: u64, ctx: &mut ChildCtx, local: &mut Local) {
+    THOROUGH.store(tier == Tier::Thorough, std::sync::atomic::Ordering::Relaxed);
     let _ = world();
     if let Some(h) = job.strip_prefix("one:") {
         ctx.begin(0);
@@ -439,6 +454,7 @@ pub fn child_params(job: &str) -> (u64, u64, usize) {
 }
 
 pub fn run(tier: Tier) -> i32 {
+    THOROUGH.store(tier == Tier::Thorough, std::sync::atomic::Ordering::Relaxed);
     let mut run = Run::new("C09", tier, "fault_enumeration");
     run.rule = "inputs: every sequence of <= 4/5 tokens over a 30-token alphabet (tags, keywords, every operator, literals of several kinds, stray '-' '=' '?') joined with and without spaces; every byte string <= 2/3 over all bytes; every prefix, substitution, deletion and insertion (23-byte alphabet) of ~280 printed filters; every one of the 256 byte values substituted at and inserted before every position of the printed filters of <= 22 bytes; long tokens (the 24 token kinds of C03 with bodies of every length 1..72, 100, 127..129, 255..257, 300, 1000 as comparison literals; identifiers, paths, and/or chains and symbols of those lengths; all sequences of <= 3 \\uXXXX escapes incl. every surrogate combination); 8 nesting patterns ('(' , 'not ', 'a and ', 'a->', mixed) at every depth 1..256, 2^k(+1) up to 131072 and 10^5 on 8 MiB and 2 MiB stacks. Every input is parsed; every accepted filter is evaluated on 17 records with a resolver whose refs form 1- and 2-cycles and which answers unknown ids in four ways (nothing, an empty record, a record without ref tags, a record pointing back at the same id) over a namespace built from tests/defs/defs.zinc, printed and re-parsed. Oracle: returns — no panic, abort, stack overflow (exit status) or hang (6 s watchdog). non-trivial = distinct input of >= 2 bytes".into();
     run.assume("a case that does not finish within 6 s is a hang; crashes and hangs are confirmed in a fresh single-step child");
